@@ -5,6 +5,24 @@ import json, os, subprocess, sys
 ROOT = os.path.dirname(os.path.dirname(os.path.abspath(__file__)))
 
 CHECKS = {
+ "C08": dict(cat="exploration", tech="panic/fatal-error monitor over child processes, logical step counter (Go coverage counters) on scaled families, error-reporting consistency monitor",
+   text="Every entry point on 10^5-10^6 hostile byte inputs and degenerate protobuf models in child processes (panics recovered, fatal errors attributed through a logged index); logical work of single calls measured as executed basic blocks on ~100 (quick) / ~650 (thorough) scaled families and random mutants against a quadratic budget and a growth-exponent bound; parser error listener vs. returned error on every DSL input.",
+   note="Work bound holds for the families and sizes measured only; 'never hangs' is decided as 'no call exceeded 50x its quadratic step budget'; K1, K5 recognised by family.", ref="5/C08"),
+ "C13": dict(cat="exploration", tech="input-snapshot monitor, Go race detector on barrier-started mixed workloads with sequential baseline, cold-vs-warm subprocess histories",
+   text="Deep snapshots around every model/file-slice entry point; go test -race over rounds of 12 goroutines on shared inputs (6 mixes) with result comparison and overlap counting; per-probe result hashes equal across cold, warmed, reversed and history-prefixed processes.",
+   note="The race detector only sees interleavings that happened (overlapping pairs are reported in evidence); histories are sampled.", ref="5/C13"),
+ "C15": dict(cat="exploration", tech="path-safety predicate + must-accept/must-reject classes over exhaustive and styled manifests with writer-recorded positions",
+   text="Every string over the 15-letter alphabet up to length 5 (quick) / 6 (thorough), with and without suffix, plus styled multi-entry manifests; safety of every returned path, error counts, verbatim/order, and positions are checked.",
+   note="Trusted: own percent decoder and YAML writer; entries with a '../' substring but no '..' segment may be answered either way (DESIGN 5/C15).", ref="5/C15"),
+ "C17": dict(cat="exploration", tech="reference-structure monitor (plain mode, edges flipped), reversal / DOT / path-duality monitors, cross-process DOT comparison",
+   text="Plain graph compared with the reference structure; Reversed() must flip lines and direction only; DOT stable across double reversal, rebuilds and fresh processes; label lookup and path queries against reference reachability for all label pairs; cycle flags through a hook.",
+   note="Operator nodes are matched through gonum node ids (creation order); cycle queries only on models with <= 12 nodes on cycles.", ref="5/C17"),
+ "C18": dict(cat="exploration", tech="decomposition-predicate monitor over exhaustive class-representative strings, boundary lengths and random Unicode; run-time constants vs. JS/Java source strings",
+   text="All strings up to length 3 over 16 representatives plus length 4 over 9 classes (quick) / length 5 (thorough), boundary lengths around every limit, random Unicode, through all 9 validators and the predicate (soundness and completeness); rule strings compared with the JS and Java sources.",
+   note="'identical to JS and Java' is decided on the rule strings as artefacts; JS/Java are not executed (cannot be built offline).", ref="5/C18"),
+ "C19": dict(cat="translation_validation", tech="artefact conformance (ATN arrays, vocabularies, listener method set) + Earley recogniser on the .g4 vs. the real generated parser on generated and grammar-derived texts",
+   text="Serialized ATNs of Go/JS/Java/.interp decoded and compared and deserialized; name tables compared with each other, the live recogniser and both .g4 files; for 10^4-10^5 texts incl. one shortest sentence per grammar production: grammar accepts <=> generated parser accepts.",
+   note="Trusted: .g4 reader and Earley recogniser (internal/g4); lexer-only grammar edits that keep all names and literals are out of reach (DESIGN 8).", ref="5/C19"),
  "C01": dict(cat="exploration", tech="round-trip monitor d->M1->D1->M2->D2->M3->D3 on both API paths over generated, corpus and mutated DSL",
    text="Every accepted full-model text among 10^4-10^6 generated layouts, corpus files and accepted token-level mutants is pushed through render/parse three times on the in-memory and the JSON-string path; equality and byte stability are asserted on each.",
    note="Trusted: proto.Equal; reading of 'modulo surrounding/trailing whitespace' in DESIGN 7-a.", ref="5/C01"),
